@@ -16,7 +16,9 @@ CONFIG = dict(
           "natural pickles.  Whenever unparse(ast) succeeds: check_safety must return, every finding must "
           "be an AnalysisResult with a Severity and a str message, to_dict() must be JSON-serialisable, and "
           "the UnsafeFileError raised by the checked loader at threshold LIKELY_SAFE must carry the same "
-          "report.  A case is one distinct byte string; non-trivial = it decompiles and has >=1 import."),
+          "report; on a sample the same bytes are also delivered as streams (file opened by str path, bytes path, "
+          "descriptor, unbuffered; anonymous temporary file; pipe; streams whose .name is None or an object) with the "
+          "same requirements.  A case is one distinct byte string; non-trivial = it decompiles and has >=1 import."),
     assumptions=[
         "the default analyser (all registered analyses after `import fickling`) is used",
         "the checked loader's final pickle.loads is replaced by a recorder in this child, so nothing is ever unpickled",
@@ -24,7 +26,7 @@ CONFIG = dict(
     min_nontrivial={"quick": 1500, "thorough": 20000},
     nshards={"quick": 8, "thorough": 16},
     timeout={"quick": 600, "thorough": 3600},
-    required_counters=("safety_checks", "loader_reports_compared"),
+    required_counters=("deliveries_checked", "safety_checks", "loader_reports_compared"),
 )
 
 MODULES = {
@@ -115,6 +117,8 @@ def check(ctx, f, analysis, loader, UnsafeFileError, label, data):
         agg.violation(f"report-not-json:{type(e).__name__}", f"to_dict() is not JSON-serialisable: {str(e)[:120]}", w)
         return
     agg.hist("severities", res.severity.name)
+    if label.startswith(("directed", "perop", "grid")) or int(ch[:2], 16) % 8 == 0:
+        check_deliveries(ctx, f, analysis, loader, UnsafeFileError, label, data, w)
     # the same report through the checked loader (threshold LIKELY_SAFE); nothing is unpickled
     FakePickle.calls.clear()
     try:
@@ -152,6 +156,94 @@ def check(ctx, f, analysis, loader, UnsafeFileError, label, data):
                 return
         except Exception:
             return
+
+
+def _streams(ctx, data):
+    """(kind, opener) - the same bytes delivered as streams of several kinds; opener() returns a fresh stream."""
+    import os
+    import tempfile
+    path = os.path.join(ctx.scratch, "c19-delivery.pkl")
+    with open(path, "wb") as fh:
+        fh.write(data)
+
+    def tmpfile():
+        t = tempfile.TemporaryFile(dir=ctx.scratch)
+        t.write(data)
+        t.seek(0)
+        return t
+
+    def pipe():
+        r, wfd = os.pipe()
+        os.write(wfd, data)
+        os.close(wfd)
+        return os.fdopen(r, "rb")
+
+    def named(obj):
+        def mk():
+            b = io.BufferedReader(io.BytesIO(data))
+            raw = io.BytesIO(data)
+
+            class S(io.BufferedReader):
+                name = obj
+            return S(raw)
+        return mk
+    kinds = [("file-str-path", lambda: open(path, "rb")),
+             ("file-bytes-path", lambda: open(os.fsencode(path), "rb")),
+             ("file-unbuffered", lambda: open(path, "rb", buffering=0)),
+             ("file-by-descriptor", lambda: os.fdopen(os.open(path, os.O_RDONLY), "rb")),
+             ("temporary-file", tmpfile),
+             ("name-is-none", named(None)), ("name-is-object", named(object()))]
+    if len(data) < 60000:
+        kinds.append(("pipe", pipe))
+    return kinds
+
+
+def check_deliveries(ctx, f, analysis, loader, UnsafeFileError, label, data, w):
+    """Totality does not depend on how the bytes arrive: every stream kind gives a verdict, a JSON report and,
+    through the loader, either a return or an UnsafeFileError whose report is the same."""
+    agg = ctx.agg
+    for kind, opener in _streams(ctx, data):
+        try:
+            with opener() as st:
+                res = analysis.check_safety(f.Pickled.load(st))
+            d = res.to_dict()
+            js = json.dumps(d, sort_keys=True)
+        except RecursionError:
+            return
+        except Exception as e:
+            agg.violation(f"analysis-raises:delivery:{kind}",
+                          f"the pickle decompiles, but delivered as {kind} the safety check / report raises "
+                          f"{type(e).__name__}: {str(e)[:120]}", dict(w, delivery=kind))
+            continue
+        FakePickle.calls.clear()
+        try:
+            with opener() as st:
+                loader.load(st)
+            raised = None
+        except UnsafeFileError as e:
+            raised = e
+        except RecursionError:
+            return
+        except Exception as e:
+            agg.violation(f"loader-raises:delivery:{kind}",
+                          f"delivered as {kind} the checked loader raises {type(e).__name__} instead of returning or "
+                          f"UnsafeFileError: {str(e)[:120]}", dict(w, delivery=kind))
+            continue
+        agg.count("deliveries_checked")
+        if raised is None:
+            if res.severity.name != "LIKELY_SAFE":
+                agg.violation(f"loader-disagrees:delivery:{kind}", "checked loader returned although the verdict is above LIKELY_SAFE",
+                              dict(w, delivery=kind))
+            continue
+        try:
+            ji = json.dumps(raised.info, sort_keys=True)
+        except Exception as e:
+            agg.violation(f"loader-report-not-json:delivery:{kind}",
+                          f"UnsafeFileError.info is not JSON-serialisable: {str(e)[:120]}", dict(w, delivery=kind))
+            continue
+        if ji != js:
+            agg.violation(f"loader-report-differs:delivery:{kind}", "UnsafeFileError.info differs from to_dict() for the same delivery",
+                          dict(w, delivery=kind, info=ji[:300], to_dict=js[:300]))
 
 
 def corpus(ctx):
